@@ -945,7 +945,10 @@ func lifeCases(thorough bool) []lifeCase {
 			out = append(out, lifeCase{Name: "selfpair", Disc: "none", Bound: b})
 		}
 		out = append(out, lifeCase{Name: "inv", Inbound: inbound, Queuers: 1, PerQ: 1, Inv: true, Disc: "api", Bound: b})
-		out = append(out, lifeCase{Name: "rping", Inbound: inbound, Queuers: 1, PerQ: 1, RemotePing: true, Disc: "api", Bound: b})
+		// (three deviations in both tiers: the input handler has to be held between
+		// reading the ping and announcing it to the stall handler while the
+		// disconnect runs to the end of the output side)
+		out = append(out, lifeCase{Name: "rping", Inbound: inbound, Queuers: 1, PerQ: 1, RemotePing: true, Disc: "api", Bound: 3})
 	}
 	return out
 }
